@@ -325,7 +325,9 @@ func (c *ctx) encCase(m message.Message, kind string, sample bool) []byte {
 	if sample {
 		c.Sample(map[string]interface{}{"kind": "encode", "msg": d, "observed": obs})
 	}
+	rtOK := true
 	if k, detail := oracleRoundTrip(m); k != "" {
+		rtOK = false
 		c.failMsg("cbor-roundtrip:"+k, detail, m, func(x message.Message) string { k, _ := oracleRoundTrip(x); return k })
 	}
 	if k, detail := oracleJSON(m); k != "" {
@@ -335,7 +337,7 @@ func (c *ctx) encCase(m message.Message, kind string, sample bool) []byte {
 	} else {
 		c.Count("json-roundtrip:skipped-orig-not-utf8")
 	}
-	if e.Err != nil || e.Panicked != "" {
+	if e.Err != nil || e.Panicked != "" || !rtOK {
 		return nil
 	}
 	return e.Bytes
